@@ -6,8 +6,13 @@ CONSTANTS
   FlavourSets = {{"SHA1"}, {"SHA256"}, {"SHA1", "SHA256"}}
   Mode = "code"
   Runs = 1
+  FlavourPhase = 9
+  FaultKinds = {"none", "patchCorrupt", "patchTruncated", "badLastPatch", "wrongResultHash", "indexMissing", "indexGarbage", "indexEmpty", "writeFails", "renameFails"}
+  Entries = {"update_file", "download_file", "replace_file"}
   RememberIndex = FALSE
   Emit = TRUE
+  EmitEvery = 1
+  EmitPhase = 0
 INVARIANTS TypeOK Converges NeverCorrupt NoTempLeft AlwaysOldOrNew FaultRaises IndexFaultConverges
            HashFaultWritesNothing GarbledNeverApplied ByPatchesWhenListed
 CHECK_DEADLOCK FALSE
